@@ -27,7 +27,7 @@ NAMES = ['foo', 'foo.bar', 'a', 'z', 'carbon.agents.x', 'servers.web1.cpu.idle',
 
 def configs(tier, seed):
   cfgs = []
-  n = 2 if tier == 'quick' else 6
+  n = 3 if tier == 'quick' else 6
   for resn in (0, 1, 10, 60):
     for s in range(n):
       cfgs.append(dict(name='res%d/%d' % (resn, s), res=resn, shard=s))
@@ -106,7 +106,7 @@ def run_config(cfg, res):
     else:
       lst.read_list()           # what the LoopingCall does every 10 s
 
-  ncases = 50 if cfg['tier'] == 'quick' else 150
+  ncases = 400 if cfg['tier'] == 'quick' else 6000
   for case in range(ncases):
     wl = gen_list(r) if r.random() < 0.6 else ([] if r.random() < 0.5 else None)
     bl = gen_list(r) if r.random() < 0.6 else ([] if r.random() < 0.5 else None)
